@@ -171,13 +171,17 @@ def run_shard(mod, tier: str, seed: int, shard: int, nshards: int, budget_s: flo
         for k, (subname, case) in enumerate(getattr(mod, "PINNED", [])):
             one(subname, mod.SUBS[subname], case, f"pinned-{k}")
 
+    subs_left = len(mod.SUBS)
     for subname, sub in mod.SUBS.items():
+        # each sub-monitor gets an equal share of whatever time remains, so that a slow one cannot starve the others
+        deadline = time.time() + max(0.0, t0 + budget_s - time.time()) / subs_left
+        subs_left -= 1
         if sub.enum is not None:
             complete = True
             for k, case in enumerate(sub.enum(tier)):
                 if k % nshards != shard:
                     continue
-                if time.time() - t0 > budget_s:
+                if time.time() > deadline:
                     res["truncated"] = True
                     complete = False
                     break
@@ -189,7 +193,7 @@ def run_shard(mod, tier: str, seed: int, shard: int, nshards: int, budget_s: flo
             n = total // nshards + (1 if shard < total % nshards else 0)
             rng = random.Random(f"{mod.ID}/{subname}/{seed}/{shard}/{nshards}")
             for k in range(n):
-                if time.time() - t0 > budget_s:
+                if time.time() > deadline:
                     res["truncated"] = True
                     break
                 st = rng.getstate()
@@ -226,7 +230,7 @@ def run_check(mod, tier: str, seed: int) -> int:
     os.makedirs(EVIDENCE_DIR, exist_ok=True)
     os.makedirs(OUT_DIR, exist_ok=True)
     nshards = shards_for(tier)
-    budget_s = float(os.environ.get("FXMON_BUDGET_S", "240" if tier == "quick" else "3000"))
+    budget_s = float(os.environ.get("FXMON_BUDGET_S", "240" if tier == "quick" else "600"))
     outs = []
     procs = []
     env = dict(os.environ)
